@@ -130,7 +130,10 @@ fn classify(text: &str, got: &Result<Vec<E>, String>, want: &[E]) -> String {
 
 /// One rendering: parse the text with two back-ends and compare with the denotation.
 pub fn eval_rendering(ts: &[T], ch: &mut Ch, acc: &mut Acc) {
-    let mut r = render(ts, ch);
+    eval_rendering_with(ts, ch, acc, false)
+}
+pub fn eval_rendering_with(ts: &[T], ch: &mut Ch, acc: &mut Acc, explicit_baseline: bool) {
+    let mut r = render_with(ts, ch, explicit_baseline);
     // last choice point: the stream ends without its final line break (not offered when a literal
     // scalar is present, whose clipped tail depends on it)
     fn has_literal(t: &T) -> bool {
@@ -157,7 +160,11 @@ pub fn eval_rendering(ts: &[T], ch: &mut Ch, acc: &mut Acc) {
             },
         };
         if got.as_ref().ok() != Some(&r.expect) {
-            acc.violation(Violation { key: classify(&r.text, &got, &r.expect), expected: format!("{:?}", r.expect), observed: format!("backend={} {:?}", b.name(), got), case: case_json(ts, &ch.taken(), &r.text), size: r.text.len() });
+            acc.violation(Violation { key: classify(&r.text, &got, &r.expect), expected: format!("{:?}", r.expect), observed: format!("backend={} {:?}", b.name(), got), case: {
+                    let mut c = case_json(ts, &ch.taken(), &r.text);
+                    c["explicit_baseline"] = json!(explicit_baseline);
+                    c
+                }, size: r.text.len() });
             break;
         }
     }
@@ -296,7 +303,7 @@ pub fn replay(case: &Value) -> Result<Acc, String> {
     let ts: Vec<T> = case["trees"].as_array().ok_or("no trees")?.iter().map(tree_parse).collect::<Result<_, _>>()?;
     let choices: Vec<u32> = case["choices"].as_array().ok_or("no choices")?.iter().map(|c| c.as_u64().unwrap_or(0) as u32).collect();
     let mut ch = Ch::new(&choices);
-    eval_rendering(&ts, &mut ch, &mut acc);
+    eval_rendering_with(&ts, &mut ch, &mut acc, case["explicit_baseline"].as_bool().unwrap_or(false));
     Ok(acc)
 }
 
@@ -410,6 +417,27 @@ pub fn check(tier: Tier) -> i32 {
     transitions += acc.counters.get("choice_edges").copied().unwrap_or(0);
     rep.acc.merge(acc);
     rep.scope(&format!("flow-only trees of {fmin}..{fmax} nodes ({}) x <= {fd} deviations", ftrees.len()), n, done == ftrees.len() as u64);
+    // block mappings written in the explicit form by default: entries `? k` / `: v`, with the usual
+    // deviations (omitted ':', implicit form for single entries, placement, ...) around that baseline
+    let (emax, edev) = if tier == Tier::Quick { (5usize, 2usize) } else { (6, 3) };
+    fn only_block_maps(t: &T) -> bool {
+        match &t.n {
+            N::Map(p, false) => p.iter().all(|(k, v)| only_block_maps(k) && only_block_maps(v)),
+            N::Seq(..) | N::Map(..) => false,
+            _ => true,
+        }
+    }
+    let etrees: Vec<T> = all_trees(emax).into_iter().filter(|t| matches!(&t.n, N::Map(p, false) if !p.is_empty()) && only_block_maps(t)).collect();
+    let (acc, done) = par_blocks(etrees.len() as u64, &budget, |b, acc| {
+        let (c, tr) = explore(edev, &mut |ch: &mut Ch| eval_rendering_with(std::slice::from_ref(&etrees[b as usize]), ch, acc, true));
+        acc.count("choice_vectors", c);
+        acc.count("choice_edges", tr);
+    });
+    let n = acc.evals;
+    states += acc.counters.get("choice_vectors").copied().unwrap_or(0);
+    transitions += acc.counters.get("choice_edges").copied().unwrap_or(0);
+    rep.acc.merge(acc);
+    rep.scope(&format!("block mappings of <= {emax} nodes with the explicit entry form as the baseline ({}) x <= {edev} deviations", etrees.len()), n, done == etrees.len() as u64);
     // deep nesting chains ("spines"): block levels outside, flow levels inside
     let (dmin, dmax) = if tier == Tier::Quick { (7usize, 11usize) } else { (7, 15) };
     let strees = spine_trees(dmin, dmax);
